@@ -56,3 +56,12 @@ pub fn available_range() -> Range<Address> {
 pub fn verif_new_map64() -> Box<dyn VMMap + Send + Sync> {
     Box::new(map64::Map64::new())
 }
+
+/// Verification hooks: crate-visible names of the private layout types.
+#[cfg(feature = "mmtk_verif")]
+pub(crate) mod verif_private {
+    pub(crate) use super::map32::Map32;
+    #[cfg(target_pointer_width = "64")]
+    pub(crate) use super::map64::Map64;
+    pub(crate) use super::mmapper::csm::ChunkStateMmapper;
+}
